@@ -317,7 +317,7 @@ func init() {
 	}
 	ck.Run = func(c *run.Ctx) *run.ShardResult {
 		sr := run.NewShardResult()
-		n := 96
+		n := 192
 		if c.Thorough() {
 			n = 1600
 		}
